@@ -84,3 +84,22 @@ Definition run_then_adds (ops : list op) (adds : list add_call) : st * list (out
 Definition obs_run_then_adds (ops : list op) (adds : list add_call) : jv :=
   let '(s, outs, ocs) := run_then_adds ops adds in
   JList [obs_outs outs; JList (map (fun oc => JInt (outcome_code oc)) ocs); obs_st s].
+
+(* ---- why C09's theorems carry the guard of OAddAtt (ids of nodes of the graph): outside it, add_attacker rejected half-way
+   leaves a node of the graph listing an attacker that is not in the graph ---- *)
+Definition gm_node (nm : string) : node := mkNode "or" nm None (Some "a") [] [] [] None None true true None JNull [] (JDict []).
+Definition gm_ops : list op := [ONew (gm_node "s0"); OAddNode 0 None; ONew (gm_node "s1"); OAddNode 1 (Some 7%Z); ONewAtt "eve"].
+Lemma rejected_add_leaves_foreign :
+  let '(s, outs, ocs) := run_then_adds gm_ops [(0, None, [7%Z; 99%Z], [])] in
+  forallb (fun p => outcome_eqb (fst p) Ok) outs = true /\ ocs = [RGraphException] /\
+  In 1 (g_nodes (s_g s)) /\ In 0 (n_comp (s_nh s 1)) /\ ~ In 0 (g_atts (s_g s)).
+Proof. vm_compute. intuition congruence. Qed.
+Lemma add_attacker_guard_needed : exists ops adds,
+  let '(s, outs, ocs) := run_then_adds ops adds in
+  forallb (fun p => outcome_eqb (fst p) Ok) outs = true /\ ocs = [RGraphException] /\
+  exists o a, In o (g_nodes (s_g s)) /\ In a (n_comp (s_nh s o)) /\ ~ In a (g_atts (s_g s)).
+Proof.
+  exists gm_ops, [(0, None, [7%Z; 99%Z], [])]. pose proof rejected_add_leaves_foreign as H.
+  destruct (run_then_adds gm_ops [(0, None, [7%Z; 99%Z], [])]) as [[s outs] ocs]. destruct H as (A & B & C & D & E).
+  split; [exact A|]. split; [exact B|]. exists 1, 0. auto.
+Qed.
